@@ -161,6 +161,67 @@ def run_items(rep, items, tag):
     return len(events)
 
 
+def user_units(rep, shapes, quick):
+    """a user-defined unit prints with the digit count and the rounding / removal switches it was registered with (the other kinds are
+    given decoy settings that differ in every field)"""
+    import itertools
+    combos = list(itertools.product((0, 2, 3, 5), (True, False), (True, False)))
+    usable = [sh for sh in shapes if len(sh["ip"]) <= 7]
+    cases, metas = [], []
+    for ci, (d, remove, rnd) in enumerate(combos):
+        dec, tho = render.SEP_CONFIGS[ci % len(render.SEP_CONFIGS)]
+        st = {"d": d, "remove": remove, "round": rnd, "dec": dec, "tho": tho}
+        cfg = cfg_of(st, "unit")
+        pick = [sh for i, sh in enumerate(usable) if (i + ci) % (12 if quick else 2) == 0 and (dec or not sh["fp"])]
+        steps = [{"op": "add_type", "name": "zorps"},
+                 {"op": "add_type_item", "name": "zorps", "index": 1, "format": "{value} ga", "parse": ["{NUMBER:value} {TEXT:type:ga}"], "up": "{value}", "down": "{value}",
+                  "names": ["ga"], "digits": d, "round": rnd, "remove": remove}]
+        steps += [{"op": "execute", "lang": "en", "text": literal(sh, st) + " ga"} for sh in pick]
+        cases.append({"id": "uu%d" % ci, "cfg": cfg, "fresh": True, "want": ["dec"], "steps": steps})
+        metas.append((st, pick))
+    obs = run_harness_stable_day(cases, "c07.units", jobs=8)
+    events, index = [], []
+    for case, (st, pick), o in zip(cases, metas, obs):
+        steps = o.get("steps") or []
+        events.append(reset_event(case["cfg"], o.get("day0", 0)))
+        index.append(None)
+        for k, step in enumerate(case["steps"]):
+            so = steps[k] if k < len(steps) else o
+            if step["op"] == "add_type":
+                events.append({"ev": "add_type", "name": "zorps", "ret": "true" if so.get("ret") else "false"})
+                index.append(None)
+                continue
+            if step["op"] == "add_type_item":
+                events.append({"ev": "add_type_item", "fam": "zorps", "idx": 1, "up": [1, 1, 0], "down": [1, 1, 0], "ret": "true" if so.get("ret") else "false"})
+                index.append(None)
+                continue
+            sh = pick[k - 2]
+            line = None
+            if so.get("outcome") == "returned" and so["res"]["status"] and len(so["res"]["lines"]) == 1:
+                line = so["res"]["lines"][0]
+            rep.case([step["text"], st, "user unit"], True)
+            if not line or not line.get("ok") or line["val"]["k"] != "unit" or "dec" not in line["val"]:
+                rep.violation({"check": "trace", "form": "format", "text": step["text"], "cfg": case["cfg"], "observed": line if line else so, "expected": {"k": "unit"},
+                               "feat": {"form": "format", "kind": "user_unit", "failure": "not_a_value"}, "class": "not_a_value|user_unit|%s" % so.get("outcome")})
+                continue
+            neg, ip, fp, sticky = expansion(line["val"]["dec"])
+            sip, sfp = shortest(line["val"]["f"])
+            events.append({"ev": "format", "kind": "unit", "v": {"neg": neg, "ip": ip, "fp": fp, "sticky": sticky, "sip": sip, "sfp": sfp}, "out": list(line["out"]),
+                           "deco": {"pre": [], "post": list(" ga")}, "digits": st["d"], "uf": {"d": st["d"], "remove": st["remove"], "round": st["round"]}})
+            index.append((step["text"], sh, line, st, case["cfg"]))
+    bad = validate_trace(rep, events, "c07.units")
+    for b in bad:
+        if index[b["l"] - 1] is None:
+            rep.violation({"check": "trace", "form": "format", "text": "registration of a user-defined unit", "expected": b["expected"], "feat": {"form": "format", "kind": "user_unit", "failure": "registration"},
+                           "class": "user_unit|registration"})
+            continue
+        text, sh, line, st, cfg = index[b["l"] - 1]
+        allowed = ["".join(a) for a in b["expected"][0]["allowed"]]
+        rep.violation({"check": "trace", "form": "format", "text": text, "cfg": cfg, "value_exact": line["val"]["dec"][:40], "printed": line["out"], "allowed": allowed,
+                       "feat": {"form": "format", "kind": "user_unit", "round": st["round"], "remove": st["remove"], "d": st["d"], "tho": st["tho"], "failure": "wrong"},
+                       "class": "format|user_unit|round=%s|remove=%s|d=%s|%s" % (st["round"], st["remove"], st["d"], "int" if not sh["fp"] else "frac")})
+
+
 def run(rep):
     quick = rep.tier == "quick"
     render.check_pool_words()
@@ -196,6 +257,7 @@ def run(rep):
                 items.append(item_for(sh, st, "unit", UNIT_CHOICES[h % len(UNIT_CHOICES)]))
     n = run_items(rep, items, "c07.gen")
     rep.sample({"text": items[0]["text"], "setting": items[0]["st"]})
+    user_units(rep, shapes, quick)
     # random doubles
     rng = random.Random(rep.seed * 4409 + 7)
     ritems = []
